@@ -35,6 +35,10 @@ CHECKS = {
          "TLC exhaustive check of the implementation-shaped HmacPool model (all reuse histories, abstract digests); its transition cover replayed through AcquireSHA1/SHA256..Put on the real pool; every recorded digest recomputed by a TLA+ trace specification from HMAC/SHA-1/SHA-256 written in TLA+; 16 goroutines under -race",
          "Every digest the pooled API produced in the replayed and random histories equals RFC 2104 HMAC of (key of the current acquisition, chunks since the last reset) as computed by TLC; the design model proves Sum = HMAC for every reuse history of two pooled objects (marshaled-state cache, re-keying).",
          "Trusted: TLA+ transcriptions of SHA-1/SHA-256/HMAC (validated against FIPS/RFC vectors), TLC, the harness; race freedom only on executed schedules (Go race detector)."),
+ "C06": (True, "DESIGN.md §4 C06",
+         "RFC 5389 s15 attribute codecs written in TLA+; TLC enumerates the case structure and checks the reference round trip; each value is driven three ways through the real setters/getters and a TLA+ trace specification checks wire bytes = reference encoding, independent decode = value, library round trip = value, reference-encoded bytes read correctly",
+         "Three equalities with an independent executable RFC codec for every enumerated case and for the complete numeric sub-domains (all 65536 ports, all codes 300..699, every text length up to the limits, lists of 0..64 types) under random transaction IDs and addresses.",
+         "Trusted: StunAttrs as the reading of RFC 5389 s15 / RFC 5780, TLC, the harness."),
 }
 
 ALL = ["C%02d" % i for i in range(1, 21)]
